@@ -40,6 +40,7 @@ type FnContract struct {
 	Ensures  []*Clause
 	Modifies []*Clause // nil + !ModAll => pure
 	ModAll   bool
+	ModTypes []string // "modifies types ...": fields of objects of these struct types, and maps
 	Loops    map[int]*LoopContract
 	Calls    []CallSpec
 	Counts   []*Clause // postconditions over count(...) — same as ensures but kept apart for naming
@@ -291,6 +292,18 @@ func (w *World) readContractFile(path string) error {
 			}
 		case "modifies":
 			cur.HasSpec = true
+			if strings.HasPrefix(strings.TrimSpace(l.rest), "types ") {
+				// modifies types T1, T2: any field of any object of these struct types (and any map content);
+				// nothing else. Backed by the structural check "writes-within".
+				if curLoop != nil {
+					return fmt.Errorf("line %d: loop modifies types not supported", l.line)
+				}
+				for _, t := range splitTopComma(strings.TrimPrefix(strings.TrimSpace(l.rest), "types ")) {
+					cur.ModTypes = append(cur.ModTypes, strings.TrimSpace(t))
+				}
+				cur.HasSpec = true
+				continue
+			}
 			if strings.TrimSpace(l.rest) == "*" {
 				if curLoop != nil {
 					return fmt.Errorf("line %d: loop modifies * not supported", l.line)
